@@ -206,6 +206,7 @@ fn judge_place(rec: &mut Recorder, c: &place::PlaceCase, ex: Exec, _hello: &Valu
         _ if matches!(c.target, TargetSel::RealAsync(_)) => "async_return".to_string(),
         FakeSel::Rust { kind, .. } => format!("{kind:?}"),
         FakeSel::Synth { api, .. } => format!("synth-api{}", api % 3),
+        FakeSel::SynthAbs { api, .. } => format!("synth-abs-api{}", api % 3),
     };
     rec.class(&format!("{tclass}/{}{}", flav, if o.straddles { "/straddle" } else { "" }));
     let long_tramp = o.decode_trace.iter().any(|t| t.contains("movabs"));
